@@ -38,6 +38,8 @@ RF(p, f) == [A0 EXCEPT !.op = "RemoveFromFile", !.p = p, !.f = f]
 F3 == <<CF(1, "f1", "V50"), CF(2, "g1", "V50"),
         CS(1, "AR-PACKAGES"), CN(3, "AR-PACKAGE", "a"), CN(3, "AR-PACKAGE", "b"), CN(3, "AR-PACKAGE", "c"),
         CS(8, "ELEMENTS"), CN(10, "SYSTEM-SIGNAL", "s"), CS(4, "ELEMENTS"), CN(13, "SYSTEM-SIGNAL", "t"),
+        \* 16 SYSTEM-SIGNAL s1 (in c, next to s: one name is a prefix of the other), 17 SN
+        CN(10, "SYSTEM-SIGNAL", "s1"),
         CF(1, "f2", "V50"), AF(3, 3), RF(4, 3)>>
 SA(p, an, v) == [A0 EXCEPT !.op = "SetAttr", !.p = p, !.an = an, !.val = v]
 SC(p, c) == [A0 EXCEPT !.op = "SetComment", !.p = p, !.name = c]
@@ -52,7 +54,10 @@ F4 == <<CF(1, "f1", "V50"), CF(2, "g1", "V401"),
         CN(6, "I-SIGNAL", "i"), CS(10, "DATA-TYPE-POLICY"), ST(12, EVal("TRANSFORMING-I-SIGNAL")), CS(10, "SYSTEM-SIGNAL-REF"), SR(13, 7),
         CN(6, "I-SIGNAL", "j"), CS(14, "SYSTEM-SIGNAL-REF"), SR(16, 7),
         SA(8, "NAME-PATTERN", SVal("x")), SC(7, "cmt"),
-        CS(2, "AR-PACKAGES"), CN(17, "AR-PACKAGE", "a")>>
+        CS(2, "AR-PACKAGES"), CN(17, "AR-PACKAGE", "a"),
+        \* model 2: 20 ELEMENTS (in a), 21 AR-PACKAGES (in a), 22 AR-PACKAGE s, 23 SN: a signal s copied into 20 meets the path /a/s of
+        \* an element in another container of the same package
+        CS(18, "ELEMENTS"), CS(18, "AR-PACKAGES"), CN(21, "AR-PACKAGE", "s")>>
 LD(m, d) == [A0 EXCEPT !.op = "Load", !.m = m, !.k = d, !.name = d]
 \* F5: a model built by loading: pb = packages a (no ELEMENTS) and b
 \*  the root of model 1 is node 3 afterwards (1 = the replaced empty root); 4 AR-PACKAGES, 5 a, 6 SN, 7 b, 8 SN
